@@ -158,8 +158,8 @@ class Case:
 
 def gen_cases(ctx):
     rng = ctx.rng
-    strings, nexh = special_strings(ctx, 3 if ctx.quick() else 4)
-    nrand = 400 if ctx.quick() else 6000
+    strings, nexh = special_strings(ctx, 3 if ctx.quick() else 5)
+    nrand = 400 if ctx.quick() else 15000
     strings += [random_string(rng) for _ in range(nrand)]
     cases = []
     cdir = vlib.CORPUS / "C16"
@@ -390,7 +390,7 @@ class Pair:
 
     def impl(self, lines):
         text = "\n".join(lines) + "\n"
-        r = vlib.sh([str(self.harness)], input=text, env=self.ctx.san_env(), timeout=1800)
+        r = vlib.sh([str(self.harness)], input=text, env=self.ctx.san_env(), timeout=3600)
         out = r.stdout.split("\n")
         if out and out[-1] == "":
             out.pop()
@@ -401,7 +401,7 @@ class Pair:
         return out, None
 
     def model(self, lines):
-        return self.ctx.driver(["c16"], "\n".join(lines) + "\n")
+        return self.ctx.driver(["c16"], "\n".join(lines) + "\n", timeout=3600)
 
 
 def capped(ctx, caps, cat, key, what, replay, found_input, limit=5):
@@ -614,7 +614,7 @@ def q(s):
 
 
 def stat_of(ctx, rd, img, path):
-    r = vlib.sh([str(rd), "-s", path, str(img)], env=ctx.san_env(), timeout=120, text=False)
+    r = vlib.sh([str(rd), "-s", path, str(img)], env=ctx.san_env(), timeout=600, text=False)
     if r.returncode != 0:
         return ("ERR", r.returncode, r.stderr[-300:])
     keep = {}
@@ -660,21 +660,21 @@ def tool_roundtrip(ctx, tools, tree, root, files, wd, idx):
             lines.append(b"sock " + base)
     (d / "pack.txt").write_bytes(b"\n".join(lines) + b"\n")
     A, B = d / "a.sqfs", d / "b.sqfs"
-    r = vlib.sh([str(gen), "-q", "-F", str(d / "pack.txt"), "-D", str(d / "in"), str(A)], env=env, timeout=300, text=False)
+    r = vlib.sh([str(gen), "-q", "-F", str(d / "pack.txt"), "-D", str(d / "in"), str(A)], env=env, timeout=900, text=False)
     if r.returncode != 0:
         return "skip", "gensquashfs refused the generated pack file: %r" % r.stderr[-200:], b""
     dargs = [str(rd), "-d"] + (["-p", os.fsdecode(root)] if root is not None else []) + [str(A)]
-    r = vlib.sh(dargs, env=env, timeout=300, text=False, cwd=str(d))
+    r = vlib.sh(dargs, env=env, timeout=900, text=False, cwd=str(d))
     if r.returncode != 0:
         return "fail", "rdsquashfs -d failed (%d): %r" % (r.returncode, r.stderr[-300:]), r.stdout
     listing = r.stdout
     (d / "list.txt").write_bytes(listing)
     uroot = os.fsdecode(root) if root is not None else "unpacked"
-    r = vlib.sh([str(rd), "-q", "-D", "-S", "-F", "-u", "/", "-p", uroot, str(A)], env=env, timeout=300, text=False, cwd=str(d))
+    r = vlib.sh([str(rd), "-q", "-D", "-S", "-F", "-u", "/", "-p", uroot, str(A)], env=env, timeout=900, text=False, cwd=str(d))
     if r.returncode != 0:
         return "skip", "rdsquashfs -u failed (%d): %r" % (r.returncode, r.stderr[-300:]), listing
     gargs = [str(gen), "-q", "-F", "list.txt"] + ([] if root is not None else ["-D", uroot]) + [str(B)]
-    r = vlib.sh(gargs, env=env, timeout=300, text=False, cwd=str(d))
+    r = vlib.sh(gargs, env=env, timeout=900, text=False, cwd=str(d))
     if r.returncode != 0:
         return "fail", "gensquashfs -F <describe output> failed (%d): %r" % (r.returncode, r.stderr[-300:]), listing
     # compare A and B entry by entry
@@ -684,13 +684,13 @@ def tool_roundtrip(ctx, tools, tree, root, files, wd, idx):
         if sa != sb or (sa and sa[0] == "ERR"):
             return "fail", "entry %r differs: original %r rebuilt %r" % (path, sa, sb), listing
         if nd[1] == "file":
-            ca = vlib.sh([str(rd), "-c", path, str(A)], env=env, timeout=120, text=False)
-            cb = vlib.sh([str(rd), "-c", path, str(B)], env=env, timeout=120, text=False)
+            ca = vlib.sh([str(rd), "-c", path, str(A)], env=env, timeout=600, text=False)
+            cb = vlib.sh([str(rd), "-c", path, str(B)], env=env, timeout=600, text=False)
             if ca.returncode != 0 or cb.returncode != 0 or ca.stdout != cb.stdout or ca.stdout != files[b"/".join(comps)]:
                 return "fail", "contents of %r differ" % path, listing
         if nd[1] == "dir":
-            la = vlib.sh([str(rd), "-l", path, str(A)], env=env, timeout=120, text=False)
-            lb = vlib.sh([str(rd), "-l", path, str(B)], env=env, timeout=120, text=False)
+            la = vlib.sh([str(rd), "-l", path, str(A)], env=env, timeout=600, text=False)
+            lb = vlib.sh([str(rd), "-l", path, str(B)], env=env, timeout=600, text=False)
             if la.returncode != 0 or lb.returncode != 0 or la.stdout.count(b"\n") != lb.stdout.count(b"\n"):
                 return "fail", "directory %r has a different number of entries" % path, listing
     return "ok", "", listing
@@ -703,7 +703,7 @@ def check_tools(ctx, pair, stats):
     wd.mkdir(exist_ok=True)
     strings, _ = special_strings(ctx, 2)
     names = [s for s in strings if valid_name(s)]
-    ntrees = 10 if ctx.quick() else 120
+    ntrees = 10 if ctx.quick() else 300
     trees = gen_trees(ctx, ntrees, maxnodes=14 if ctx.quick() else 30, names=names, need_file=True)
     roots = [None, b"out", b"un pack", b"a\\b", b"q\"r", b"t\tu", None, b"x/y z"]
     res = {"ok": 0, "skip": 0, "fail": 0}
@@ -736,8 +736,14 @@ def check_tools(ctx, pair, stats):
                 files[b"/".join(comps)] = bytes(ctx.rng.randint(0, 255) for _ in range(ctx.rng.choice([0, 1, 17, 300, 5000])))
         prepared.append((t, root, files, i))
     from concurrent.futures import ThreadPoolExecutor
-    with ThreadPoolExecutor(max_workers=min(6, vlib.NCPU)) as ex:
-        results = list(ex.map(lambda a: tool_roundtrip(ctx, (gen, rd), a[0], a[1], a[2], wd, a[3]), prepared))
+    with ThreadPoolExecutor(max_workers=3) as ex:
+        def one(a):
+            try:
+                return tool_roundtrip(ctx, (gen, rd), a[0], a[1], a[2], wd, a[3])
+            except subprocess.TimeoutExpired as e:
+                # a loaded machine is not a property violation: the run is recorded as skipped
+                return "skip", "timeout (machine load): %s" % str(e)[:120], b""
+        results = list(ex.map(one, prepared))
     for (t, root, files, i), (st, detail, listing) in zip(prepared, results):
         res[st] += 1
         runs.append((t, root, st, detail, listing))
@@ -793,7 +799,7 @@ def run(ctx):
     cases, nstrings, nexh, nrand, ncorpus_cases = gen_cases(ctx)
     stats["corpus_cases"] = ncorpus_cases
     distinct = check_cases(ctx, pair, cases, stats) or set()
-    trees = gen_trees(ctx, 60 if ctx.quick() else 1500)
+    trees = gen_trees(ctx, 60 if ctx.quick() else 3000)
     check_trees(ctx, pair, trees, stats, [None, b"R", b"r s", b"/abs/\"q\"", b"t\\", None])
     check_tools(ctx, pair, stats)
     ctx.cov.update(stats)
@@ -807,7 +813,7 @@ def run(ctx):
                 "{space,tab,'\"','\\\\','a',NUL} up to length 6/8 plus random lines; parse_uint(_oct) on digit strings; structure-aware "
                 "malformed pack files.  non-trivial = distinct describe lines produced by the real printer and decoded by the real parser. "
                 "tool level: generated trees through gensquashfs/rdsquashfs (ASan+UBSan) and back, compared by rdsquashfs -s/-c/-l."
-                % (3 if ctx.quick() else 4, nexh, nrand),
+                % (3 if ctx.quick() else 5, nexh, nrand),
         "exhaustive": False,
         "witness_theorems_build": wok,
         "disagreements_checked": stats.get("roundtrip_failures", 0) + stats.get("tree_roundtrip_failures", 0) + stats.get("parser_disagreements", 0),
